@@ -29,7 +29,15 @@ class Sym:
     pass
 
 
+def _no_python_truth(s):
+    # a symbolic scalar/collection must never be tested by Python's own `if`: the engine decides truth via
+    # Engine.truth(); an accidental test in a model would silently pick one branch
+    raise Unsupported(f'python truth value of symbolic {type(s).__name__} requested by the engine (model bug)')
+
+
 class SInt(Sym):
+    __bool__ = _no_python_truth
+
     def __init__(s, z):
         s.z = z
 
@@ -38,6 +46,8 @@ class SInt(Sym):
 
 
 class SBool(Sym):
+    __bool__ = _no_python_truth
+
     def __init__(s, z):
         s.z = z
 
@@ -46,6 +56,8 @@ class SBool(Sym):
 
 
 class SEnum(Sym):
+    __bool__ = _no_python_truth
+
     """member of Enum class cls identified by an integer code.
 
     For int-valued enums the code is the member's value; for other enums it is
@@ -59,6 +71,8 @@ class SEnum(Sym):
 
 
 class SArr(Sym):
+    __bool__ = _no_python_truth
+
     """fixed-length 1-d numeric vector (numpy model): list of z3 Int / python numbers"""
 
     def __init__(s, items):
@@ -66,6 +80,8 @@ class SArr(Sym):
 
 
 class SList(Sym):
+    __bool__ = _no_python_truth
+
     """list with symbolic length n and z3 Array contents; elements are codes of enum cls"""
 
     def __init__(s, cls, arr, n):
@@ -80,6 +96,8 @@ class SLog(Sym):
 
 
 class CardSet(Sym):
+    __bool__ = _no_python_truth
+
     """Set[Card] over the 52-card universe: bits[i] for card index i = (suit-1)*13 + rank-2,
     plus a size term maintained by the model (never a popcount handed to the solver)."""
     _n = 0
@@ -134,6 +152,8 @@ class Opaque(Sym):
 
 
 class GuardedList(Sym):
+    __bool__ = _no_python_truth
+
     """list whose elements are present under guards: [(z3 Bool or None, value)] (order preserved)"""
 
     def __init__(s, items):
@@ -587,6 +607,13 @@ class Engine:
                 return a
             opt = (a is None or b is None or getattr(a, 'opt', False) or getattr(b, 'opt', False))
             return SEnum(cls, z3.If(g, zenum(a), zenum(b)), opt=opt)
+        if isinstance(a, (str, SStr)) and isinstance(b, (str, SStr)) and not isinstance(a, bytes):
+            from . import sstr
+            ca, cb = sstr.chars_of(a), sstr.chars_of(b)
+            if len(ca) != len(cb):
+                raise MergeFail('strings of different length')
+            return sstr.mk([x if (isinstance(x, int) and isinstance(y, int) and x == y) else
+                            z3.If(g, sstr.zc(x), sstr.zc(y)) for x, y in zip(ca, cb)])
         if isinstance(a, SArr) and isinstance(b, SArr) and len(a.items) == len(b.items):
             return SArr([z3.If(g, zint(x), zint(y)) for x, y in zip(a.items, b.items)])
         if isinstance(a, CardSet) and isinstance(b, CardSet):
@@ -953,6 +980,16 @@ class Frame:
         if isinstance(it, GuardedList):
             for g, x in it.items:
                 yield g, x
+            return
+        if type(it).__name__ == 'SortedCards':
+            from . import cards
+            order = cards.sorted_order()
+            for i in (reversed(order) if it.reverse else order):
+                bit = it.cs.bits[i]
+                b = z3.simplify(bit) if isinstance(bit, z3.ExprRef) else z3.BoolVal(bool(bit))
+                if z3.is_false(b):
+                    continue
+                yield (None if z3.is_true(b) else b), cards.CARDS[i]
             return
         if isinstance(it, SStr):
             for c in it.chars:
@@ -1388,6 +1425,8 @@ class Frame:
             if any(isinstance(x, Sym) for x in (lo, hi, st)):
                 raise Unsupported('symbolic slice bounds on SStr')
             return SStr(o.chars[slice(lo, hi, st)])
+        if isinstance(o, SArr) and not any(isinstance(x, Sym) for x in (lo, hi, st)):
+            return SArr(o.items[slice(lo, hi, st)])
         if isinstance(o, Sym) or any(isinstance(x, Sym) for x in (lo, hi, st)):
             if isinstance(o, (list, tuple, str)) and all(x is None or isinstance(x, (int, SInt)) for x in (lo, hi, st)):
                 n = len(o)
@@ -1609,6 +1648,8 @@ class Frame:
             right = self.ev(r)
             res.append(self.cmp(op, left, right))
             left = right
+        if len(res) == 1 and isinstance(res[0], SArr):
+            return res[0]
         if all(not isinstance(x, Sym) for x in res):
             return all(res)
         return SBool(z3.And([zbool(x) for x in res]))
@@ -1705,7 +1746,8 @@ class Frame:
 
     def ex_ListComp(self, e):
         first_it = self.ev(e.generators[0].iter)
-        if isinstance(first_it, (CardSet, GuardedList)) and len(e.generators) == 1:
+        if (isinstance(first_it, (CardSet, GuardedList)) or type(first_it).__name__ == 'SortedCards') \
+                and len(e.generators) == 1:
             self._first_iter_cache = first_it
             out = self._collect(e.elt, e.generators)
             if any(g is not None for g, _ in out):
